@@ -58,8 +58,7 @@ Definition oid_eqb (a b : oid) : bool :=
 
 Record stroke : Type := {
   s_side : side; s_row : Z; s_col : Z; s_len : Z;
-  s_obj : nat;          (* which of the caller's Border objects *)
-  s_attrs : attrs       (* its width / colour / pattern *)
+  s_obj : nat           (* which of the caller's Border objects *)
 }.
 
 (* the line and the start position of a stroke in its own direction *)
@@ -78,10 +77,15 @@ Definition covers_edge (s : stroke) (e : edge) : bool :=
 Definition valid (nr nc : Z) (s : stroke) : bool :=
   (0 <=? s_row s) && (s_row s <? nr) && (0 <=? s_col s) && (s_col s <? nc).
 
+Section WithObjects.
+(* width / colour / pattern of the caller's n-th Border object (fixed when the object is made) *)
+Variable objs : nat -> attrs.
+
 Definition lww_step (nr nc : Z) (m : edge -> option attrs) (s : stroke) : edge -> option attrs :=
-  if valid nr nc s then fun e => if covers_edge s e then Some (s_attrs s) else m e else m.
+  if valid nr nc s then fun e => if covers_edge s e then Some (objs (s_obj s)) else m e else m.
 Definition lww (nr nc : Z) (h : list stroke) : edge -> option attrs :=
   fold_left (lww_step nr nc) h (fun _ => None).
+End WithObjects.
 
 (* ---------- implementation state ---------- *)
 Record border_obj : Type := { bo_attrs : attrs; bo_order : Z }.
@@ -239,20 +243,23 @@ Definition ensure_extracted (st : mem) : mem :=
        m_nruns := n; m_max := m_max st; m_layers := m_layers st; m_lorder := m_lorder st |}.
 
 (* ---------- Table.set_cell_border ---------- *)
+Section WithObjects2.
+Variable objs : nat -> attrs.
+
 Definition stamp (heap : oid -> option border_obj) (s : stroke) (k : Z) : oid -> option border_obj :=
   fun o => if oid_eqb o (User (s_obj s))
-           then Some {| bo_attrs := match heap o with Some b => bo_attrs b | None => s_attrs s end; bo_order := k |}
+           then Some {| bo_attrs := match heap o with Some b => bo_attrs b | None => objs (s_obj s) end; bo_order := k |}
            else heap o.
 
 (* the caller's Border object: made with _order = 0 the first time it is seen *)
 Definition with_obj (heap : oid -> option border_obj) (s : stroke) : oid -> option border_obj :=
   fun o => if oid_eqb o (User (s_obj s))
-           then match heap o with Some b => Some b | None => Some {| bo_attrs := s_attrs s; bo_order := 0 |} end
+           then match heap o with Some b => Some b | None => Some {| bo_attrs := objs (s_obj s); bo_order := 0 |} end
            else heap o.
 
 Definition new_run (s : stroke) (k : Z) (heap : oid -> option border_obj) : run :=
   {| r_origin := s_origin s; r_length := s_len s; r_order := k;
-     r_attrs := match heap (User (s_obj s)) with Some b => bo_attrs b | None => s_attrs s end |}.
+     r_attrs := match heap (User (s_obj s)) with Some b => bo_attrs b | None => objs (s_obj s) end |}.
 
 (* model.add_stroke: stamp, then patch or create the layer *)
 Definition add_stroke (s : stroke) (st : mem) : mem :=
@@ -285,6 +292,8 @@ Definition do_stroke (s : stroke) (st : mem) : mem :=
   then update_cells s (add_stroke s (see_obj s (ensure_extracted st)))
   else st.
 
+End WithObjects2.
+
 (* Cell.border of every cell *)
 Definition read_borders (st : mem) : mem := ensure_extracted st.
 
@@ -316,13 +325,13 @@ Inductive bop : Type :=
 | BRead          (* read every cell's border *)
 | BReopen.       (* save and reopen *)
 
-Definition bstep (st : mem) (o : bop) : mem :=
+Definition bstep (objs : nat -> attrs) (st : mem) (o : bop) : mem :=
   match o with
-  | BStroke s => do_stroke s st
+  | BStroke s => do_stroke objs s st
   | BRead => read_borders st
   | BReopen => reopen st
   end.
-Definition brun (ops : list bop) (st : mem) : mem := fold_left bstep ops st.
+Definition brun (objs : nat -> attrs) (ops : list bop) (st : mem) : mem := fold_left (bstep objs) ops st.
 
 Fixpoint strokes_of (ops : list bop) : list stroke :=
   match ops with
@@ -334,15 +343,15 @@ Fixpoint strokes_of (ops : list bop) : list stroke :=
 (* ---------- the pinned tree ---------- *)
 Module Pinned.
   (* cells first - compared with the order the object happens to carry - then add_stroke *)
-  Definition do_stroke (s : stroke) (st : mem) : mem :=
+  Definition do_stroke (objs : nat -> attrs) (s : stroke) (st : mem) : mem :=
     if valid (m_nr st) (m_nc st) s
-    then add_stroke s (update_cells s (see_obj s (ensure_extracted st)))
+    then add_stroke objs s (update_cells s (see_obj objs s (ensure_extracted st)))
     else st.
-  Definition bstep (st : mem) (o : bop) : mem :=
+  Definition bstep (objs : nat -> attrs) (st : mem) (o : bop) : mem :=
     match o with
-    | BStroke s => do_stroke s st
+    | BStroke s => do_stroke objs s st
     | BRead => read_borders st
     | BReopen => reopen st
     end.
-  Definition brun (ops : list bop) (st : mem) : mem := fold_left bstep ops st.
+  Definition brun (objs : nat -> attrs) (ops : list bop) (st : mem) : mem := fold_left (bstep objs) ops st.
 End Pinned.
